@@ -18,12 +18,19 @@ import (
 	"time"
 
 	sdkmath "cosmossdk.io/math"
+	storetypes "cosmossdk.io/store/types"
+	codectypes "github.com/cosmos/cosmos-sdk/codec/types"
+	kmultisig "github.com/cosmos/cosmos-sdk/crypto/keys/multisig"
+	cryptotypes "github.com/cosmos/cosmos-sdk/crypto/types"
 	sdk "github.com/cosmos/cosmos-sdk/types"
+	txtypes "github.com/cosmos/cosmos-sdk/types/tx"
+	"github.com/cosmos/cosmos-sdk/types/tx/signing"
 	banktypes "github.com/cosmos/cosmos-sdk/x/bank/types"
 	"github.com/cosmos/gogoproto/proto"
 	"github.com/ethereum/go-ethereum/common"
 	"github.com/ethereum/go-ethereum/crypto"
 
+	fxante "github.com/functionx/fx-core/v8/ante"
 	"github.com/functionx/fx-core/v8/contract"
 	fxtypes "github.com/functionx/fx-core/v8/types"
 	crosschaintypes "github.com/functionx/fx-core/v8/x/crosschain/types"
@@ -701,8 +708,99 @@ func (g *mgen) one(kind int) []mcase {
 		return g.ibcMemo()
 	case 36:
 		return g.targets()
+	case 37:
+		return g.pubKeyDecorator()
+	case 38:
+		return g.multisigGas()
 	}
 	return nil
+}
+
+// pubKeyDecorator: the real ante.PubKeyDecorator on a decoded tx with npub signer infos and nsig required signers.
+func (g *mgen) pubKeyDecorator() []mcase {
+	h := g.h
+	r := h.r
+	nsig := 1 + r.Intn(2)
+	npub := r.Intn(4)
+	if r.Chance(g.ok) {
+		npub = nsig
+	}
+	var msgs []*codectypes.Any
+	for i := 0; i < nsig; i++ {
+		msgs = append(msgs, h.anyOf(&banktypes.MsgSend{FromAddress: h.p.accOK[i], ToAddress: h.p.accOK[3], Amount: sdk.NewCoins(fxCoin(1))}))
+	}
+	body, _ := proto.Marshal(&txtypes.TxBody{Messages: msgs})
+	ai := &txtypes.AuthInfo{Fee: &txtypes.Fee{Amount: sdk.NewCoins(fxCoin(10)), GasLimit: 200000}}
+	for i := 0; i < npub; i++ {
+		pk, _ := codectypes.NewAnyWithValue(h.p.keys[i%len(h.p.keys)].Priv.PubKey())
+		ai.SignerInfos = append(ai.SignerInfos, &txtypes.SignerInfo{PublicKey: pk, ModeInfo: &txtypes.ModeInfo{Sum: &txtypes.ModeInfo_Single_{Single: &txtypes.ModeInfo_Single{Mode: signing.SignMode_SIGN_MODE_DIRECT}}}})
+	}
+	aiBz, _ := proto.Marshal(ai)
+	sigs := make([][]byte, nsig)
+	for i := range sigs {
+		sigs[i] = randBytes(r, 64)
+	}
+	raw, _ := proto.Marshal(&txtypes.TxRaw{BodyBytes: body, AuthInfoBytes: aiBz, Signatures: sigs})
+	o := guard(func() error {
+		tx, err := h.c.App.GetTxConfig().TxDecoder()(raw)
+		if err != nil {
+			return fmt.Errorf("harness: decode: %w", err)
+		}
+		ctx, _ := h.c.Ctx.CacheContext()
+		for i := 0; i < nsig; i++ {
+			h.c.EnsureAccount(ctx, h.p.keys[i].Acc())
+		}
+		next := func(ctx sdk.Context, _ sdk.Tx, _ bool) (sdk.Context, error) { return ctx, nil }
+		_, err = fxante.NewPubKeyDecorator(h.c.App.AccountKeeper).AnteHandle(ctx, tx, false, next)
+		return err
+	})
+	if o.Class == "panic" {
+		h.fail("ante", "recovered-by-ante", o, "PubKeyDecorator panics", map[string]interface{}{"stage": "model", "tx_bytes_hex": fmt.Sprintf("%x", raw), "npub": npub, "nsig": nsig, "panic": o.Msg})
+	}
+	return []mcase{g.cv(fmt.Sprintf("I_PubKeyDecorator %d %d", npub, nsig), o)}
+}
+
+// multisigGas: the real ante.ConsumeMultisignatureVerificationGas on a bit array / key set / signature list of chosen sizes.
+func (g *mgen) multisigGas() []mcase {
+	h := g.h
+	r := h.r
+	nkeys := 1 + r.Intn(4)
+	size := r.Intn(7)
+	if r.Chance(g.ok) {
+		size = nkeys
+	}
+	ba := cryptotypes.NewCompactBitArray(size)
+	ntrue := 0
+	for i := 0; i < size; i++ {
+		if r.Chance(60) {
+			ba.SetIndex(i, true)
+			ntrue++
+		}
+	}
+	nsigs := r.Intn(5)
+	if r.Chance(g.ok) {
+		nsigs = ntrue
+	}
+	if ba == nil { // size 0
+		ba = &cryptotypes.CompactBitArray{}
+	}
+	var keys []cryptotypes.PubKey
+	for i := 0; i < nkeys; i++ {
+		keys = append(keys, h.p.keys[i%len(h.p.keys)].Priv.PubKey())
+	}
+	pk := kmultisig.NewLegacyAminoPubKey(1, keys)
+	ms := &signing.MultiSignatureData{BitArray: ba}
+	for i := 0; i < nsigs; i++ {
+		ms.Signatures = append(ms.Signatures, &signing.SingleSignatureData{SignMode: signing.SignMode_SIGN_MODE_LEGACY_AMINO_JSON, Signature: randBytes(r, 64)})
+	}
+	o := guard(func() error {
+		ctx, _ := h.c.Ctx.CacheContext()
+		return fxante.ConsumeMultisignatureVerificationGas(storetypes.NewInfiniteGasMeter(), ms, pk, h.c.App.AccountKeeper.GetParams(ctx), 0)
+	})
+	if o.Class == "panic" {
+		h.fail("ante", "recovered-by-ante", o, "ConsumeMultisignatureVerificationGas panics", map[string]interface{}{"stage": "model", "size": size, "nkeys": nkeys, "ntrue": ntrue, "nsigs": nsigs, "panic": o.Msg})
+	}
+	return []mcase{g.cv(fmt.Sprintf("I_MultisigGas %d %d %d %d", size, nkeys, ntrue, nsigs), o)}
 }
 
 func (g *mgen) claimCases() []mcase {
@@ -758,8 +856,8 @@ func (g *mgen) claimCases() []mcase {
 			tcs, tvs = append(tcs, c), append(tvs, v)
 		}
 		for i := 0; i < na; i++ {
-			// amounts are NOT checked by ValidateBasic: draw every class with equal weight
-			c, v := g.intv(r.Intn(4))
+			// amounts: nil and negative entries must be rejected by ValidateBasic (edafc05)
+			c, v := g.intv(2 + r.Intn(2))
 			acs, avs = append(acs, c), append(avs, v.v)
 			if v.nil {
 				ops = append(ops, wireOp{Path: []wstep{{fieldNum(m, "Amounts"), i}}, Op: "empty"})
@@ -1275,7 +1373,7 @@ func (h *harness) stageModel() {
 	strict := os.Getenv("VERIF_STRICT") != ""
 	for i := 0; i < n; i++ {
 		g := &mgen{h: h, ok: []int{92, 85, 70, 40}[h.r.Intn(4)]}
-		kind := h.r.Intn(37)
+		kind := h.r.Intn(39)
 		for _, c := range g.one(kind) {
 			if strings.HasPrefix(c.obs.Msg, "harness:") {
 				h.rep.Count("model:harness-skip")
